@@ -42,5 +42,6 @@ void scalePair(Pair &p, double f);
 int firstOf(const Pair *p);
 template<typename T> T half(T v);
 template<typename T> T biggest();
+template<typename T, typename U> void store(T first, U second);
 }
 #endif
